@@ -79,6 +79,32 @@ Section SortGlue.
   Proof. intros k elems H. exists (gosort elems). cbn [ego_sort]. rewrite H. auto. Qed.
 End SortGlue.
 
+(* stability is what the stable wrappers' glue must preserve: whichever Go sort function the wrapper of a stable entry
+   reaches (regenerated table, obligation [table_ok]) is a stable one, so equal keys keep their input order *)
+Section StableGlue.
+  Variable key : sv -> Z.
+  Variable gorun : gosortfn -> list sv -> list sv.          (* what Go's sort.X does to the slice under the adapted comparator *)
+  Hypothesis go_sorted : forall f l, StronglySorted (fun a b => key a <= key b) (gorun f l).
+  Hypothesis go_perm : forall f l, Permutation l (gorun f l).
+  Hypothesis go_stable : forall f l, go_is_stable f = true -> keep_order key l (gorun f l).
+  Theorem C11_stable_wrapper_stable :
+    forall tbl name reached f l,
+      table_ok tbl = true -> In (name, reached) tbl -> ego_stable_name name = true -> In f reached ->
+      keep_order key l (gorun f l) /\ StronglySorted (fun a b => key a <= key b) (gorun f l) /\ Permutation l (gorun f l).
+  Proof.
+    intros tbl name reached f l Ht Hin Hn Hf. unfold table_ok in Ht. rewrite forallb_forall in Ht.
+    specialize (Ht _ Hin). unfold row_ok in Ht. cbn [fst snd] in Ht. rewrite Hn in Ht.
+    apply andb_true_iff in Ht as [_ Ht]. rewrite forallb_forall in Ht.
+    repeat split; [apply go_stable; apply Ht; exact Hf | apply go_sorted | apply go_perm].
+  Qed.
+End StableGlue.
+
+(* the obligation is not vacuous: today's table passes, the table of a wrapper that hands sort.Slice to the stable entry does not *)
+Example C11_table_ok_discriminates :
+  table_ok [(name_SliceStable, [GoSliceStable]); (name_Stable, [GoSliceStable]); ([83;108;105;99;101]%N, [GoSlice])] = true /\
+  table_ok [(name_SliceStable, [GoSlice])] = false /\ table_ok [(name_Stable, [])] = false.
+Proof. repeat split; reflexivity. Qed.
+
 Example C11_nonvacuous :
   (exists g, to_native (EArray KInt16 [VInt KInt16 (-32768); VInt KInt16 32767]) = Ok g /\
              from_native g = Ok (EArray KInt16 [VInt KInt16 (-32768); VInt KInt16 32767])) /\
